@@ -360,8 +360,14 @@ impl Item {
             }
             Item::KittyKey { code, alts, mods, text } => {
                 let mut s = format!("\x1b[{code}");
-                for a in alts {
-                    s.push_str(&format!(":{a}"));
+                for (i, a) in alts.iter().enumerate() {
+                    // an omitted alternate key is an EMPTY sub-field (kitty's own example:
+                    // `CSI 1089::99;5u`, no shifted key, base-layout key 99)
+                    if *a == 0 && i + 1 < alts.len() {
+                        s.push(':');
+                    } else {
+                        s.push_str(&format!(":{a}"));
+                    }
                 }
                 if mods.is_some() || text.is_some() {
                     s.push_str(&format!(";{}", mods.map(|m| m.to_string()).unwrap_or_default()));
@@ -630,7 +636,9 @@ pub fn item_strategy(table_len: usize) -> BoxedStrategy<Item> {
         1 => ((coord(), coord()), (coord(), coord())).prop_map(|(cells, pixels)| Item::SizePair { cells, pixels }),
         2 => proptest::collection::vec(prop_oneof![4 => text_char(), 1 => Just('\n'), 1 => Just('\t'), 1 => Just('\u{7}')], 0..12).prop_map(|v| Item::Paste(v.into_iter().collect())),
         // one sequence longer than any plausible internal buffer (1 KiB, 4 KiB)
-        1 => (prop_oneof![Just(1000usize), 1020usize..1030, 2000usize..5000], "[ -~]{1,7}").prop_map(|(n, unit)| {
+        // (one in thirty of these: longer than 64 KiB, so that a read boundary can fall behind
+        // any 16-bit limit inside one sequence)
+        1 => (prop_oneof![10 => Just(1000usize), 10 => 1020usize..1030, 9 => 2000usize..5000, 1 => 65_530usize..100_000], "[ -~]{1,7}").prop_map(|(n, unit)| {
             Item::Paste(unit.chars().cycle().take(n).collect())
         }),
         2 => ("[0-9;]{0,6}", proptest::sample::select(vec!['\u{e9}', '\u{416}', '\u{4e16}', '\u{1f929}', '\u{80}', '\u{10ffff}']))
